@@ -101,6 +101,29 @@ theorem obj_reload_strict [DecidableEq α] {ls : List (Line τ α)} {gs : List (
       RoundTrips id (gs.map toMesh) (gs'.map toMesh) = true :=
   ObjL.obj_reload_strict pc h hne hnames matFile
 
+/-- **Load → save: every corner of the saved text.**  For every accepted input, saving what was read
+    succeeds and the saved text has — face by face, corner by corner, in order — for each corner token of
+    the input: the same position, the same texture coordinate if EVERY corner of its group has one (none
+    otherwise), the same normal if every corner of its group has one (none otherwise); every corner of the
+    saved text resolves against its own `v / vt / vn` lines.  (Final-pool form of the oracle predicate
+    `Resaves`: corners are resolved against the whole pool of their text.) -/
+theorem obj_resave_corners {ls : List (Line τ α)} {gs : List (Group τ α)} {libs : List String}
+    (h : readObj pc ls = .ok (gs, libs)) (matFile : String) :
+    ∃ out, writeObj matFile (gs.map toMesh) = .ok out ∧
+      cornerAttrs pcId out =
+        gs.flatMap (fun g => (flatC g.ftoks).map (savedCorner pc (poolV ls) (poolN ls) (poolT ls) g)) ∧
+      ∀ o ∈ cornerAttrs pcId out, o.isSome :=
+  ObjL.obj_resave_corners pc h matFile
+
+/-- **`Resaves` for texts whose groups each use one corner shape** (all four shapes allowed, a different one
+    per group): the saved text has exactly the corners of the input — position, texture coordinate and normal
+    of every face corner, in order — and every one of them resolves. -/
+theorem obj_resave_corners_uniform {ls : List (Line τ α)} {gs : List (Group τ α)} {libs : List String}
+    (h : readObj pc ls = .ok (gs, libs)) (hu : UniformGroups pc gs) (matFile : String) :
+    ∃ out, writeObj matFile (gs.map toMesh) = .ok out ∧ cornerAttrs pcId out = cornerAttrs pc ls ∧
+      ∀ o ∈ cornerAttrs pcId out, o.isSome :=
+  ObjL.obj_resave_corners_uniform pc h hu matFile
+
 end s1
 
 section s2
@@ -245,6 +268,12 @@ def sampleText : List (Line Corner Nat) :=
 example : ∃ gs libs, readObj pcId sampleText = .ok (gs, libs) ∧ (∀ g ∈ gs, g.tris ≠ []) ∧
     (∀ g ∈ gs, ∀ p ∈ g.mats, matName (some p.1) ≠ "") ∧ (gs.map fun g => (g.name, g.mats)) = [("", [("red", 1)]), ("b", [("blue", 1)])] := by
   refine ⟨_, _, rfl, ?_, ?_, ?_⟩ <;> decide
+
+/-- `UniformGroups` is satisfiable: in `sampleText` the first group uses `v//vn`, the second plain `v` -/
+example : ∃ gs libs, readObj pcId sampleText = .ok (gs, libs) ∧ UniformGroups pcId gs := by
+  refine ⟨_, _, rfl, ?_⟩
+  unfold UniformGroups
+  decide
 
 /-- the print/parse law `hshow` of `obj_roundtrip_text` is satisfiable (tokens = corners) -/
 example : ∀ c : Corner, pcId (id c) = .ok c := fun _ => rfl
